@@ -208,7 +208,18 @@ def check_acceptance(ctx, chk, lf):
         else:
             doc = by_loops.get(tuple(g.loops), [])
         atoms = f_atoms(g.F) - benign
-        rel = [d for d in doc if f_atoms(d) & atoms]
+        from sa.canon import ATOM_STRUCT
+
+        def operands(ats):
+            out = set()
+            for a in ats:
+                st = ATOM_STRUCT.get(a)
+                if st:
+                    out |= {st[1], st[2]}
+            return out
+        gops = operands(atoms)
+        rel = [d for d in doc if (f_atoms(d) & atoms) or
+               (gops and len(operands(f_atoms(d)) & gops) >= 2)]
         D = f_and(rel) if rel else ("true",)
         G = g.F
         # benign atoms are assumed (they follow from the required keys being present)
